@@ -151,6 +151,18 @@ pub fn constructs() -> Vec<K> {
         )
       },
     },
+    // parameters declared in an order that is not the alphabetical one, named arguments in both orders, positional
+    K {
+      name: "invoke-named-declared-q-p",
+      arity: 2,
+      build: |o| {
+        T::List(vec![
+          T::CallNamed(Box::new(T::Func(vec![("q".into(), None), ("p".into(), None)], Box::new(T::List(vec![v("p"), v("q")])))), vec![("q".into(), o[0].clone()), ("p".into(), o[1].clone())]),
+          T::CallNamed(Box::new(T::Func(vec![("q".into(), None), ("p".into(), None)], Box::new(T::List(vec![v("p"), v("q")])))), vec![("p".into(), o[1].clone()), ("q".into(), o[0].clone())]),
+          T::Call(Box::new(T::Func(vec![("q".into(), None), ("p".into(), None)], Box::new(T::List(vec![v("p"), v("q")])))), vec![o[0].clone(), o[1].clone()]),
+        ])
+      },
+    },
     K {
       name: "invoke-too-few",
       arity: 1,
